@@ -158,3 +158,23 @@ func dynFrame(f reflect.Value) string {
 	b.WriteString("}")
 	return b.String()
 }
+
+// dynFirstDiff returns got unchanged if it equals want; otherwise it puts the
+// first differing line in front (messages show only the beginning of a
+// result), which keeps it different from want.
+func dynFirstDiff(got, want string) string {
+	if got == want {
+		return got
+	}
+	g, w := strings.Split(got, "\n"), strings.Split(want, "\n")
+	for i := range g {
+		if i >= len(w) || g[i] != w[i] {
+			exp := "<nothing>"
+			if i < len(w) {
+				exp = w[i]
+			}
+			return fmt.Sprintf("[line %d is %s, alone it is %s] %s", i+1, g[i], exp, got)
+		}
+	}
+	return fmt.Sprintf("[%d lines, alone %d lines] %s", len(g), len(w), got)
+}
